@@ -32,4 +32,10 @@ ev C02 5 internal/tan/zz_demo_test.go ./internal/tan -- C09 C10 C02
 lane4() {
 ev C02 6 internal/raft/zz_demo_test.go ./internal/raft -- C02 C19
 }
+lane5() {
+ev C18 5 internal/rsm/zz_demo_test.go ./internal/rsm -- C18 C07 C08 C02
+ev C18 6 internal/raft/zz_demo_test.go ./internal/raft -- C18 C03 C06
+ev C11 3 zz_c11_demo3_test.go . -- C11
+ev C17 4 internal/raft/zz_demo_c17_4_test.go ./internal/raft -- C17
+}
 "$@"
